@@ -102,7 +102,12 @@ def build(case):
             ll0._bounds = bounds
         else:
             ll0.pixel_bounds = bounds
-    cube = NDCube(C.payload(shape, 0), wcs=wcs)
+    cube = None
+    if case["wseed"] % 7 == 3:
+        # (one cube in seven is reached by slicing a larger one by ranges: see common.via_slicing)
+        cube = C.via_slicing(C.payload(tuple(shape), 0), wcs, case["wseed"])
+    if cube is None:
+        cube = NDCube(C.payload(shape, 0), wcs=wcs)
     tabs = []
     for k, ec in enumerate(case["ecs"]):
         if ec["kind"] == "skymesh":
